@@ -70,6 +70,15 @@ def rand_K(g, n, kind, scale):
         return psd(g, n, max(1, n // 2), scale)
     if kind == "indefinite":
         return herm(g, n, scale)
+    if kind in ("strong-slightly-indefinite", "strong-slightly-positive"):
+        # PSD part of spectral radius `scale` (30 .. 40: the largest strength at which quara's ABSOLUTE 1e-13 thresholds on
+        # round-off imaginary parts still pass) plus ONE eigenvalue of modulus 5e-14 * scale >= 15 atol, two orders above
+        # float round-off -> it must be judged by its sign
+        u = qobj.rand_unitary(g, n)
+        ev = scale * np.linspace(1.0, 0.25, n)
+        ev[-1] = (-5e-14 if kind.endswith("indefinite") else 5e-14) * scale
+        K = (u * ev) @ u.conj().T
+        return (K + K.conj().T) / 2
     if kind == "traceless-J":   # K supported away from index 0 with zero trace: J has no identity and no B_1 part
         K = np.zeros((n, n), dtype=complex)
         return K
@@ -718,6 +727,9 @@ def oracle(ctx, volume=1):
             cases += [(K_KINDS[(2 * rep) % 4], w, w, "weak-"), (K_KINDS[(2 * rep + 1) % 4], w, w, "weak-")]
             if not ctx.quick or volume > 1:
                 cases += [(K_KINDS[(rep + i) % 4], ww, ww, "weak-") for i, ww in enumerate(WEAK) if ww != w]
+            # strong generators whose K is PSD up to one tiny eigenvalue of either sign (verdicts at large spectral radius)
+            st = [30.0, 40.0][rep % 2]
+            cases += [("strong-slightly-indefinite", 1.0, st, "strong-"), ("strong-slightly-positive", 1.0, st, "strong-")]
             for kind, sH, sK, wk in cases:
                 H = herm(g, d, sH)
                 K = rand_K(g, n - 1, kind, sK)
@@ -749,6 +761,10 @@ def oracle(ctx, volume=1):
             ctx.count(f"oracle {label} argument memory layouts")
             ctx.case(("layout", label, Hl.tobytes(), Kl.tobytes()), nontrivial=True, sample={"op": "builders x memory layouts", "sys": label})
             check_layouts(ctx, label, rot_seed, c, Hl, Jl, Kl)
+            if rep == 0:
+                ctx.count(f"oracle {label} non-default options / argument dtypes")
+                ctx.case(("options", label), nontrivial=True, sample={"op": "builders x non-default options x dtypes", "sys": label})
+                check_options_dtypes(ctx, label, rot_seed, c, B, g)
             # Hamiltonian-only generator (J = 0, K = 0): everything must hold exactly as stated
             H = herm(g, d, SCALES[rep % 4])
             Z = np.zeros((n - 1, n - 1), dtype=complex)
@@ -1000,6 +1016,93 @@ def check_layouts(ctx, label, rot_seed, c, H, J, K):
     return len(ctx.violations) - n0
 
 
+NONDEFAULT = dict(is_physicality_required=False, is_estimation_object=False, on_para_eq_constraint=False,
+                  on_algo_eq_constraint=False, on_algo_ineq_constraint=False, mode_proj_order="ineq_eq",
+                  eps_proj_physical=1e-3, eps_truncate_imaginary_part=1e-9)
+
+
+def check_options_dtypes(ctx, label, rot_seed, c, B, g):
+    """(a) every builder called with NON-DEFAULT constructor options: each option must land in the attribute of the same
+    name, the generator must be the one built with default options, and the Hermitian-basis parts must still sum to it;
+    (b) the same arguments in other dtypes (real float64 / integer H, K; jump-operator lists mixing real, integer and
+    complex arrays in any order) must give the same generator as their complex128 copies."""
+    d = c.dim
+    n = d * d
+    n0 = len(ctx.violations)
+    H = herm(g, d, 1.0); J = herm(g, d, 1.0); K = rand_K(g, n - 1, "psd-full", 1.0)
+    cs = [dy(g, (d, d), 0.7) + 1j * dy(g, (d, d), 0.7) for _ in range(2)]
+    rep = {"kind": "options", "sys": label, "rot_seed": rot_seed, "H": arr(H), "J": arr(J), "K": arr(K), "cs": [arr(x) for x in cs]}
+    builders = {
+        "from_h": lambda **kw: el.generate_effective_lindbladian_from_h(c, H, **kw),
+        "from_hk": lambda **kw: el.generate_effective_lindbladian_from_hk(c, H, K, **kw),
+        "from_k": lambda **kw: el.generate_effective_lindbladian_from_k(c, K, **kw),
+        "from_hjk": lambda **kw: el.generate_effective_lindbladian_from_hjk(c, H, J, K, **kw),
+        "from_jump_operators": lambda **kw: el.generate_effective_lindbladian_from_jump_operators(c, cs, **kw),
+    }
+    for nm, fn in builders.items():
+        try:
+            L0 = fn(is_physicality_required=False)
+            L1 = fn(**NONDEFAULT)
+        except Exception as e:  # noqa
+            ctx.violate(f"C18/options/{nm}/raises", f"{label}: {type(e).__name__}: {str(e)[:150]}", rep); continue
+        S = max(float(np.abs(L0.hs).max()), 1e-300)
+        for k_, v in NONDEFAULT.items():
+            got = getattr(L1, k_)
+            if got != v:
+                ctx.violate(f"C18/options/{nm}/attribute", f"{label}: generate_effective_lindbladian_{nm}(..., {k_}={v!r}) built an object with {k_}={got!r}", rep)
+                break
+        if not near(L1.hs, L0.hs, 1e-12, ref=S):
+            ctx.violate(f"C18/options/{nm}/hs", f"{label}: the generator depends on the constructor options (diff {np.abs(L1.hs - L0.hs).max():.3g})", rep)
+        try:
+            for mode, whole in (("hermitian_basis", L1.hs), ("comp_basis", lcb_of_hs(B, L1.hs))):
+                dsum = L1.calc_j_part(mode) + L1.calc_k_part(mode)
+                s_ = L1.calc_h_part(mode) + dsum
+                if not near(s_, whole, 1e-8, ref=S) or not near(L1.calc_d_part(mode), dsum, 1e-8, ref=S):
+                    ctx.violate(f"C18/options/{nm}/parts_sum/{mode}", f"{label}: with non-default options the h+j+k parts differ from the whole by {np.abs(s_ - whole).max():.3g}", rep)
+            G = L1.to_gate()
+            if G.eps_proj_physical != NONDEFAULT["eps_proj_physical"] or G.mode_proj_order != NONDEFAULT["mode_proj_order"] \
+                    or not near(G.hs, expm(L1.hs), 1e-9):
+                ctx.violate(f"C18/options/{nm}/to_gate", f"{label}: to_gate() of an object with non-default options lost them or is not expm(hs)", rep)
+        except Exception as e:  # noqa
+            ctx.violate(f"C18/options/{nm}/parts/raises", f"{label}: {type(e).__name__}: {str(e)[:150]}", rep)
+    # ---- dtypes
+    Hr = np.round(herm(g, d, 4.0).real); Hr = (Hr + Hr.T) / 2 * 2          # integer-valued symmetric
+    Kr = psd(g, n - 1, n - 1, 1.0).real; Kr = (Kr + Kr.T) / 2
+    variants = {"float64": (Hr.astype(np.float64), Kr.astype(np.float64)), "int64-H": (Hr.astype(np.int64), Kr.astype(np.float64)),
+                "float32-K": (Hr.astype(np.float64), Kr.astype(np.float32).astype(np.float64))}
+    try:
+        for vn, (h_, k_) in variants.items():
+            ref = el.generate_hs_from_hk(c, h_.astype(np.complex128), k_.astype(np.complex128))
+            got = el.generate_hs_from_hk(c, h_, k_)
+            if not near(got, ref, 1e-12, ref=max(float(np.abs(ref).max()), 1e-300)):
+                ctx.violate("C18/dtype/from_hk", f"{label}: H, K given as {vn} give a generator differing by {np.abs(got - ref).max():.3g} from their complex128 copies", dict(rep, variant=vn))
+    except Exception as e:  # noqa
+        ctx.violate("C18/dtype/from_hk/raises", f"{label}: {type(e).__name__}: {str(e)[:150]}", rep)
+    real_op = np.round(dy(g, (d, d), 2.0))
+    mixes = {"real-first": [real_op.astype(np.float64), cs[0], real_op.astype(np.int64)], "complex-first": [cs[0], real_op.astype(np.float64)],
+             "int-first": [real_op.astype(np.int64), cs[1]], "all-real": [real_op.astype(np.float64), np.eye(d)]}
+    for mn, ops in mixes.items():
+        snap = [o.copy() for o in ops]
+        ref_ops = [o.astype(np.complex128) for o in ops]
+        for fn_name in ("generate_k_part_cb_from_jump_operators", "generate_j_part_cb_from_jump_operators", "generate_d_part_cb_from_jump_operators"):
+            try:
+                got, ref = getattr(el, fn_name)(ops), getattr(el, fn_name)(ref_ops)
+                if not near(got, ref, 1e-12, ref=max(float(np.abs(ref).max()), 1e-300)):
+                    ctx.violate(f"C18/dtype/{fn_name}", f"{label}: jump operators with dtypes {[str(o.dtype) for o in ops]} give a result differing by {np.abs(got - ref).max():.3g} from their complex128 copies", dict(rep, mix=mn))
+            except Exception as e:  # noqa
+                ctx.violate(f"C18/dtype/{fn_name}/raises", f"{label}: jump operators with dtypes {[str(o.dtype) for o in ops]}: {type(e).__name__}: {str(e)[:120]}", dict(rep, mix=mn))
+        try:
+            Lg = el.generate_effective_lindbladian_from_jump_operators(c, ops, is_physicality_required=False)
+            Lr = el.generate_effective_lindbladian_from_jump_operators(c, ref_ops, is_physicality_required=False)
+            if not near(Lg.hs, Lr.hs, 1e-12, ref=max(float(np.abs(Lr.hs).max()), 1e-300)):
+                ctx.violate("C18/dtype/from_jump_operators", f"{label}: dtypes {[str(o.dtype) for o in ops]}: generator differs from the complex128 one", dict(rep, mix=mn))
+        except Exception as e:  # noqa
+            ctx.violate("C18/dtype/from_jump_operators/raises", f"{label}: dtypes {[str(o.dtype) for o in ops]}: {type(e).__name__}: {str(e)[:120]}", dict(rep, mix=mn))
+        if any(not np.array_equal(a_, b_) or a_.dtype != b_.dtype for a_, b_ in zip(ops, snap)):
+            ctx.violate("C18/dtype/jump/mutates", f"{label}: the jump-operator builders modified their arguments", dict(rep, mix=mn))
+    return len(ctx.violations) - n0
+
+
 def check_random_setting(ctx, label, rot_seed, base_kind, sh, sk, seeds):
     """RandomEffectiveLindbladianGenerationSetting: >= 3 successive generate() calls on ONE setting; each result must be
     base (snapshot taken BEFORE the first call) + GKSL(H_random, K_random) rebuilt independently from the returned random
@@ -1079,6 +1182,12 @@ def replay(ctx, data):
     if r["kind"] == "layout":
         c = sys_by_label(r["sys"], r["rot_seed"])
         k = check_layouts(ctx, r["sys"], r["rot_seed"], c, unarr(r["H"]), unarr(r["J"]), unarr(r["K"]))
+        for v in ctx.violations:
+            print("  still failing:", v["signature"], "-", v["what"])
+        return 1 if k else 0
+    if r["kind"] == "options":
+        c = sys_by_label(r["sys"], r["rot_seed"])
+        k = check_options_dtypes(ctx, r["sys"], r["rot_seed"], c, basis_of(c), ctx.npgen(7))
         for v in ctx.violations:
             print("  still failing:", v["signature"], "-", v["what"])
         return 1 if k else 0
